@@ -308,6 +308,10 @@ pub fn install_quiet_panic_hook() {
         } else {
             "?".to_string()
         };
+        // a failure of the machinery itself (not of the subject) is never swallowed, whichever thread raises it
+        if msg.starts_with("MACHINERY") {
+            eprintln!("{} @ {}", msg, loc);
+        }
         LAST_PANIC.with(|p| *p.borrow_mut() = format!("{} @ {}", msg, loc));
     }));
 }
